@@ -104,6 +104,70 @@ def S_insert(L):
     return spec
 
 
+# ------------------------------------------------------------------------------------------------ encoder
+_BASE_ENC = EarlyZeroEnc.__mro__[1]     # the real csmt.Enc (the module attribute csmt.Enc is swapped by use_encoder)
+
+
+class PadEnc(EarlyZeroEnc):
+    """EarlyZeroEnc specialised for systems that consist of hundreds of `is_equal_to_fixed(x, i)` gadgets on the
+    same few cells (merge_chunks / insert_in_array: 184 of them in compute_padding).
+
+    The is-zero gadget on a ONE-cell linear form, rows  a*(c*x + k) + r - 1 = 0  and  r*(c*x + k) = 0  (a the
+    inverse hint, c != 0 a constant), implies r = [c*x + k = 0 in F_p] = [x = -k/c mod p] whatever a is (no zero
+    divisors; x ranges over [0, p)). That fact is stated as `r = ite(x = K, 1, 0)` with the constant K = -k/c
+    computed here (instead of a fresh modular definition of the linear form), and the two product rows are then
+    LEFT OUT of the encoding: they are the only rows the hint a occurs in, leaving out hypotheses is sound for
+    `Sys => Spec` (unsat stays valid), and every model is still re-checked exactly against ALL extracted rows by
+    cengine (the hint is re-solved by EarlyZeroEnc.repair_model). Measured on compute_padding: 367 abstract
+    products with 11 000 pairwise cancellation lemmas (> 90 s, both solvers) become 0 products."""
+
+    def iszero_single(self, polys):
+        P = self.P
+        first, second = {}, {}
+        for poly in polys:
+            const, lin, quad, high = self.split_poly(poly)
+            if high or len(quad) != 1:
+                continue
+            c, u, v = quad[0]
+            if u == v:
+                continue
+            for a, x in ((u, v), (v, u)):
+                # a*(c x + k) + r - 1 :  lin = {a: k, r: 1}, const = -1   (k may be 0)
+                others = [n for n in lin if n != a]
+                if const == P - 1 and len(others) == 1 and lin[others[0]] == 1 and others[0] != x:
+                    first[(a, x)] = (others[0], c, lin.get(a, 0) % P, poly)
+                # r*(c x + k) :  lin = {r: k} or {}, const = 0
+                if const == 0 and all(n == a for n in lin):
+                    second[(a, x)] = (c, lin.get(a, 0) % P, poly)
+        dropped = set()
+        for (a, x), (r, c, k, poly1) in first.items():
+            hit = second.get((r, x))
+            if hit is None or self.occ.get(a, 0) != 1:
+                continue
+            c2, k2, poly2 = hit
+            if (c2, k2) not in ((c, k), ((-c) % P, (-k) % P)):
+                continue
+            K = (-k) * pow(c, -1, P) % P
+            self.lines.append(f"(assert (= {r} (ite (= {x} {K}) 1 0)))")
+            self.set_bound(r, 2)
+            self.bool_atoms.add(r)
+            dropped.add(id(poly1))
+            dropped.add(id(poly2))
+        return dropped
+
+    def infer_bounds(self, polys):
+        self._iz_dropped = self.iszero_single(polys)
+        rest = [p for p in polys if id(p) not in self._iz_dropped]
+        _BASE_ENC.iszero_lemmas(self, rest)
+        self._iz_done = True
+        return _BASE_ENC.infer_bounds(self, rest)
+
+    def constraint(self, poly, monomial_mode=False):
+        if id(poly) in getattr(self, "_iz_dropped", ()):
+            return
+        return super().constraint(poly, monomial_mode)
+
+
 # ------------------------------------------------------------------------------------------ honest inputs
 def msg_input(M, n, rnd):
     """`in=` of op=padding: <len> then M slots (first n = payload)."""
@@ -142,6 +206,16 @@ def decide_one(run, oid, what, op, params, ins, spec, key, timeout, alt=(), boun
                 if cengine.structure_hash(s2) != base:
                     ob.set(core.INCONCLUSIVE, f"emitted structure depends on the witness ({cengine.pstr(ap)})")
                     break
+        if ob.status in (core.VIOLATION, core.KNOWN) and op == "padding" and ob.replay:
+            try:
+                import json
+                pl = json.load(open(ob.replay))
+                if pl.get("instance"):
+                    who = "the chip's own honest run (accepted by the real MockProver) has an instance column that" if pl.get("kind") == "honest-output" \
+                        else "the real MockProver accepts a forged assignment whose instance column"
+                    ob.detail = f"{who} violates the specification: " + explain_instance(pl["cx"], pl["instance"])
+            except Exception:  # noqa
+                pass
     except cengine.ExtractPanic as ex:
         ob.key += ":honest-panics"
         ob.set(core.VIOLATION, f"the real synthesis panics on admissible inputs: {ex}",
@@ -202,7 +276,7 @@ def run_all(run, only=None, workers=6):
     timeout = 90 if tier == "quick" else 600
     J = [j for j in jobs(tier, seed) if not only or only in j[0]]
     cengine.build(run)
-    with use_encoder(EarlyZeroEnc):
+    with use_encoder(PadEnc):
         with ThreadPoolExecutor(workers) as ex:
             list(ex.map(lambda j: decide_one(run, j[0], j[1], j[2], j[3], j[4], j[5], j[6], timeout, alt=j[7]), J))
     # one verifying-key comparison per circuit shape (the structure does not depend on the witness: checked above)
